@@ -3,7 +3,11 @@
 
 mod arena;
 mod bytecheck;
+mod alloccheck;
 mod ctx;
+mod stepcheck;
+mod threadcheck;
+mod histcheck;
 mod itercheck;
 mod misccheck;
 mod ppcheck;
@@ -14,6 +18,9 @@ mod report;
 
 use ctx::Ctx;
 use serde_json::Value;
+
+#[global_allocator]
+static GLOBAL: alloccheck::Counting = alloccheck::Counting;
 
 fn silence_panics() {
     std::panic::set_hook(Box::new(|_| {}));
@@ -106,6 +113,34 @@ fn main() {
             let f = ppcheck::pbt(&c, ppcheck::mode_for(&c.prop));
             c.finish(f);
         }
+        "c10" => {
+            let f = histcheck::c10(&c, "c10-proptest");
+            c.finish(f);
+        }
+        "c10-phases" => {
+            let f = histcheck::c10(&c, "c10-phases");
+            c.finish(f);
+        }
+        "history" => {
+            let f = histcheck::c16(&c);
+            c.finish(f);
+        }
+        "alloc" => {
+            let f = alloccheck::c17(&c);
+            c.finish(f);
+        }
+        "steps" => {
+            let f = stepcheck::steps_stage(&c);
+            c.finish(f);
+        }
+        "steps-exh" => {
+            let f = stepcheck::steps_exhaustive(&c);
+            c.finish(f);
+        }
+        "threads" => {
+            let f = threadcheck::c15(&c);
+            c.finish(f);
+        }
         "replay" => {
             let path = c.rest.get(0).expect("replay <file>");
             let v: Value = serde_json::from_slice(&std::fs::read(path).expect("read replay file")).expect("parse replay file");
@@ -115,6 +150,11 @@ fn main() {
                 "byte" => bytecheck::replay(&c2, &v),
                 "byte-iter" => itercheck::replay(&c2, &v),
                 "eq" => misccheck::eq_replay(&c2, &v),
+                "alloc" => alloccheck::replay(&c2, &v),
+                "steps" => stepcheck::replay(&c2, &v),
+                "threads" => threadcheck::replay(&c2, &v),
+                "c10" => histcheck::c10_replay(&c2, &v),
+                "history" => histcheck::c16_replay(&c2, &v),
                 "sub" if v["op"].as_str().unwrap_or("").contains('[') => ppcheck::replay(&c2, &v),
                 "sub" => subcheck::replay(&c2, &v),
                 "pair" => misccheck::pair_replay(&c2, &v),
